@@ -38,6 +38,14 @@ def run(chk):
                              f.name, cf.render(ev.get('rhs')) if ev.get('rhs') else '?', arch.upper()))
         if not n:
             p5.bad('%s:used_arch' % tu.split('__')[0], f.loc, '%s never records used_arch' % f.name)
+        # ... and its own type number (imb_set_pointers_mb_mgr picks the type-N init from it)
+        tn = int(m.group(2))
+        for b, i, ev in f.events(('assign',)):
+            l = cf.strip_casts(ev['lhs'])
+            if l.get('k') == 'mem' and l['f'] == 'used_arch_type':
+                p5.check(cf.evalc(ev.get('rhs') or {}) == tn, '%s:used_arch_type' % tu.split('__')[0], ev['loc'],
+                         '%s records used_arch_type = %s in the type-%d variant: a re-attached manager is bound to the handlers of another type' % (
+                             f.name, cf.render(ev.get('rhs')) if ev.get('rhs') else '?', tn))
     inits.rule_handlers(chk, P, 'P2a', 'P2b', 'P2c')
     inits.rule_no_image_address(chk, P)
     rule_asm_image_stores(chk)
